@@ -7,6 +7,7 @@ package main
 import (
 	"encoding/json"
 	"fmt"
+	"os"
 	"sort"
 	"strings"
 	"time"
@@ -149,7 +150,7 @@ func (c *Cfg) M() M {
 		"conflicts": strs(c.Conflicts), "replaces": strs(c.Replaces), "provides": strs(c.Provides),
 		"umask": c.Umask, "pmt": c.Pmt, "pmtset": c.Pmt != 0 || c.PmtZero, "noglob": c.NoGlob, "scripts": sc, "script_mt": scm,
 		"deb":       M{"arch": c.DebArch, "compression": c.DebCompression, "breaks": strs(c.DebBreaks), "predepends": strs(c.DebPredepends), "fields": kvs(c.DebFields), "triggers": kvs(c.DebTriggers)},
-		"rpm":       M{"arch": c.RpmArch, "compression": c.RpmCompression, "group": c.RpmGroup, "summary": c.RpmSummary, "packager": c.RpmPackager, "buildhost": c.RpmBuildHost, "prefixes": strs(c.RpmPrefixes)},
+		"rpm":       M{"arch": c.RpmArch, "compression": c.RpmCompression, "group": c.RpmGroup, "summary": c.RpmSummary, "packager": c.RpmPackager, "buildhost": c.RpmBuildHost, "hostname": hostName(), "prefixes": strs(c.RpmPrefixes)},
 		"apk":       M{"arch": c.ApkArch},
 		"archlinux": M{"arch": c.ArchArch, "pkgbase": c.ArchPkgbase, "packager": c.ArchPackager},
 		"ipk": M{"arch": c.IpkArch, "abi_version": c.IpkABI, "alternatives": alts, "auto_installed": c.IpkAuto, "essential": c.IpkEss,
@@ -513,4 +514,10 @@ func sortedSlots(m map[string]string) []string {
 	}
 	sort.Strings(ks)
 	return ks
+}
+
+// hostName: the name of the machine the packages are built on (what an rpm states as its build host when none is configured)
+func hostName() string {
+	h, _ := os.Hostname()
+	return h
 }
